@@ -7,9 +7,11 @@ import (
 	"bytes"
 	"encoding/binary"
 	"fmt"
+	"math/big"
 	"net"
 	"os"
 	"path/filepath"
+	"strings"
 	"time"
 
 	"verifharness/bpfrun"
@@ -53,7 +55,7 @@ type env struct {
 	kernel bool
 	// counters for evidence
 	kernelRuns, nativeRuns, kvCompared, kvDisagree, faults int
-	disagreeNote                                            string
+	disagreeNote                                           string
 }
 
 func subFrame(d int, ip []byte) []byte {
@@ -115,8 +117,31 @@ func bs(b []byte) string {
 	if len(b) == 0 {
 		return "(B 0 0)"
 	}
-	return fmt.Sprintf("(B %d 0x%x)", len(b), b)
+	// trailing zero run compressed, the rest in chunks of 32 bytes (one number each)
+	z := 0
+	for z < len(b) && b[len(b)-1-z] == 0 {
+		z++
+	}
+	if z < 8 {
+		z = 0
+	}
+	body := b[:len(b)-z]
+	var parts []string
+	for len(body) > 0 {
+		n := len(body)
+		if n > 32 {
+			n = 32
+		}
+		parts = append(parts, fmt.Sprintf("B %d %s", n, vh.BigN(new(big.Int).SetBytes(body[:n]))))
+		body = body[n:]
+	}
+	if z > 0 {
+		parts = append(parts, fmt.Sprintf("Zs %d", z))
+	}
+	return "(" + strings.Join(parts, " ++ ") + ")"
 }
+
+func num(v uint64) string { return vh.BigN(new(big.Int).SetUint64(v)) }
 
 func coqKV(kvs []bpfrun.KV) string {
 	var it []string
@@ -200,7 +225,7 @@ func (e *env) run(c Case) vh.Case {
 			if o.K == "rm" {
 				tr = append(tr, fmt.Sprintf("(Remove %s, %s)", bs(o.IP), out))
 			} else {
-				tr = append(tr, fmt.Sprintf("(SetQoS %s %s %d %d %d %d, %s)", vh.Bool(o.Pol), bs(o.IP), o.Down, o.Up, o.Burst, o.Prio, out))
+				tr = append(tr, fmt.Sprintf("(SetQoS %s %s %s %s %s %d, %s)", vh.Bool(o.Pol), bs(o.IP), num(o.Down), num(o.Up), num(uint64(o.Burst)), o.Prio, out))
 			}
 		case "pkt", "sub":
 			frame := o.Frame
@@ -267,10 +292,10 @@ func (e *env) run(c Case) vh.Case {
 				tags[fmt.Sprintf("verdict:%d", verdict)] = true
 			}
 			if o.K == "sub" {
-				tr = append(tr, fmt.Sprintf("(Sub %s %s %d %d, %s)", dirName[d], bs(o.IP), o.Plen, o.Now, out))
+				tr = append(tr, fmt.Sprintf("(Sub %s %s %d %s, %s)", dirName[d], bs(o.IP), o.Plen, num(o.Now), out))
 			} else {
 				tags[fmt.Sprintf("framelen:%s", lenClass(len(frame)))] = true
-				tr = append(tr, fmt.Sprintf("(Pkt %s %s %d %d, %s)", dirName[d], bs(frame), o.Plen, o.Now, out))
+				tr = append(tr, fmt.Sprintf("(Pkt %s %s %d %s, %s)", dirName[d], bs(frame), o.Plen, num(o.Now), out))
 			}
 		case "rep":
 			tags["op:rep"] = true
@@ -290,7 +315,7 @@ func (e *env) run(c Case) vh.Case {
 			if kmode {
 				e.syncNativeToKernel()
 			}
-			tr = append(tr, fmt.Sprintf("(Rep %s %s %d %d %d %d, ORle %s)", dirName[d], bs(o.IP), o.Plen, o.Now, o.Gap, o.N, vh.List(it)))
+			tr = append(tr, fmt.Sprintf("(Rep %s %s %d %s %s %d, ORle %s)", dirName[d], bs(o.IP), o.Plen, num(o.Now), num(o.Gap), o.N, vh.List(it)))
 		case "snap":
 			var kvs []bpfrun.KV
 			var err error
@@ -307,7 +332,7 @@ func (e *env) run(c Case) vh.Case {
 	for t := range tags {
 		tl = append(tl, t)
 	}
-	return vh.Case{Coq: "(" + vh.List(tr) + " : case)", Desc: c, Tags: tl}
+	return vh.Case{Coq: vh.List(tr), Desc: c, Tags: tl}
 }
 
 func lenClass(n int) string {
